@@ -156,8 +156,9 @@ def subfragments(ctx, res):
         vnames = [v["name"] for v in t["variants"]]
         ent = vnames.index("Entry")
         ftys = [f["ty"] for f in t["variants"][ent]["fields"]]
-        kcell = Top(None, "the-key")
-        vcell = Top(None, "the-value")
+        # the key / value references are real references (to opaque cells), so that a re-borrow keeps their identity
+        kcell = Ref(("H", st.new_obj(Top(None, "the-key")).id), ())
+        vcell = Ref(("H", st.new_obj(Top(None, "the-value")).id), ())
         cell = st.new_obj(Agg(sf_ty, ent, (Agg(ftys[0], 1, (kcell,)), Agg(ftys[1], 1, (vcell,)))))
         got = []
         ok = True
